@@ -182,7 +182,10 @@ def pyfftw_call(array_in, array_out, direction='forward', axes=None,
         [planning_effort], direction, halfcomplex, array_in.ndim)
     must_copy_array_in = fftw_plan_in is None and planner_destroys
 
-    if must_copy_array_in and not array_in_copied:
+    if must_copy_array_in:
+        # Plan on a scratch array. This is also necessary if ``array_in``
+        # is the complex copy of a real input made above, since that copy
+        # holds the data to be transformed.
         plan_arr_in = np.empty_like(array_in)
         flags = [_flag_odl_to_pyfftw(planning_effort), 'FFTW_DESTROY_INPUT']
     else:
